@@ -65,6 +65,8 @@ def scenarios(tier):
                 L.append("lazyreq %s %s" % (fl, ep))
             if ep in ("queryAdapter", "adapter_hook"):
                 L.append("descr %s %s" % (fl, ep))
+            if ep in ("lookup", "lookup1", "queryAdapter", "adapter_hook", "queryMultiAdapter"):
+                L.append("midwalk %s %s" % (fl, ep))
         L.append("pychanged %s lookup" % fl)
     return L
 
@@ -175,7 +177,7 @@ def check(tier):
     chk.samples.extend(lines[:6])
     ev = chk.finish(len(lines) * 2, len(lines),
                     "translation: the ownership IR of 4 C functions and the fetch/callback/store IR of 3, plus the iteration mode of the Python loops in changed(), "
-                    "regenerated from the current sources and decided by Lean (8 generated obligations); runtime: 7 re-entrancy scenarios x 2 registry flavours x up to 7 "
+                    "regenerated from the current sources and decided by Lean (8 generated obligations); runtime: 8 re-entrancy scenarios x 2 registry flavours x up to 7 "
                     "entry points x 2 twins (stray write through a dangling cache pointer, stale answer after a mutation inside the uncached computation, mutation before "
                     "the computation, reference leaks on failing factories / unhashable provided, lazy `required`, mutating __providedBy__, re-entered changed()); "
                     "thorough adds a 4-thread stress per flavour and twin; distinct_nontrivial = scenarios",
